@@ -24,8 +24,10 @@ import (
 	"fmt"
 	"math/rand"
 	"os"
+	"reflect"
 	"strings"
 	"time"
+	"unsafe"
 
 	"github.com/cosmos72/gomacro/fast"
 )
@@ -62,10 +64,58 @@ type c06Trace struct {
 	anom   []string // events the translation could not explain
 	hook   bool
 	leak   bool // a function returned normally without releasing its frame
+	audit  string // non-empty: an escaped pointer refers to the Ints of a frame that is pooled or not flagged IntAddressTaken
+}
+
+// c06PtrGlobals are the package-level slices in which generated programs keep escaped pointers
+// to integer-like variables (variables of these kinds live in Env.Ints)
+var c06PtrGlobals = []string{"gp", "gpk", "gp8", "gpf"}
+
+// c06AuditPointers checks on the REAL heap, after the program has run, the clause of the model's
+// invariant that protects &env.Ints[i]: a frame whose Ints backing array is the target of a live
+// pointer has IntAddressTaken set and is not in the pool (freeEnv drops the Ints of such a frame
+// before pooling it, and only then).
+func c06AuditPointers(ir *fast.Interp, base *fast.Env, envs map[*fast.Env]int) string {
+	run := base.Run
+	pooled := map[*fast.Env]bool{}
+	for i := 0; i < run.PoolSize; i++ {
+		pooled[run.Pool[i]] = true
+	}
+	for _, name := range c06PtrGlobals {
+		vals, errText := evalSrc(ir, name)
+		if errText != "" || len(vals) != 1 || vals[0].Kind() != reflect.Slice {
+			continue
+		}
+		sl := vals[0]
+		for i := 0; i < sl.Len(); i++ {
+			pv := sl.Index(i)
+			if pv.Kind() != reflect.Ptr || pv.IsNil() {
+				continue
+			}
+			addr := pv.Pointer()
+			for env, id := range envs {
+				ints := env.Ints[:cap(env.Ints)]
+				if len(ints) == 0 {
+					continue
+				}
+				lo := uintptr(unsafe.Pointer(&ints[0]))
+				if addr < lo || addr >= lo+8*uintptr(len(ints)) {
+					continue
+				}
+				switch {
+				case pooled[env]:
+					return fmt.Sprintf("%s[%d] points into the Ints of frame %d, which is in Run.Pool", name, i, id)
+				case !env.IntAddressTaken:
+					return fmt.Sprintf("%s[%d] points into the Ints of frame %d, which does not have IntAddressTaken set", name, i, id)
+				}
+			}
+		}
+	}
+	return ""
 }
 
 // c06Run evaluates the program (declarations, then main1()) in a fresh interpreter
-func c06Run(decls []string) *c06Trace {
+func c06Run(decls []string, poison bool) *c06Trace {
 	tr := &c06Trace{tags: map[string]bool{}}
 	ir := newQuietInterp()
 	var events []c06Event
@@ -80,7 +130,7 @@ func c06Run(decls []string) *c06Trace {
 		mainRun := base.Run
 		hook.VerifC06(func(kind int, run *fast.Run, env *fast.Env, outer *fast.Env, a int, b int, flag bool) {
 			events = append(events, c06Event{kind, env, outer, a, b, flag, run.PoolSize, run != mainRun})
-		}, true)
+		}, poison)
 		defer hook.VerifC06(nil, false)
 	}
 	src := strings.Join(decls, "\n") + "\nmain1()"
@@ -95,7 +145,13 @@ func c06Run(decls []string) *c06Trace {
 	}
 	if hook != nil {
 		hook.VerifC06(nil, false)
-		c06Translate(tr, base, events)
+		envs := c06Translate(tr, base, events)
+		if errText == "" {
+			tr.audit = c06AuditPointers(ir, base, envs)
+			if tr.audit != "" && os.Getenv("C06_DEBUG") != "" {
+				fmt.Fprintf(os.Stderr, "C06 audit (poison=%v): %s\n", poison, tr.audit)
+			}
+		}
 		if tr.tags["unwind"] && !strings.Contains(src, "panic(") && errText == "" {
 			// activations can only be left behind by a panic; the program has none:
 			// some function frame was never released (no freeEnv4Func on a normal return)
@@ -188,7 +244,7 @@ func c06b(b bool) int {
 	return 0
 }
 
-func c06Translate(tr *c06Trace, base *fast.Env, events []c06Event) {
+func c06Translate(tr *c06Trace, base *fast.Env, events []c06Event) map[*fast.Env]int {
 	m := &c06Mon{tr: tr, ids: map[*fast.Env]int{}}
 	m.id(base.Outer) // 0 = top env
 	m.id(base)       // 1 = file env
@@ -312,6 +368,7 @@ func c06Translate(tr *c06Trace, base *fast.Env, events []c06Event) {
 	if len(m.ids) > 2+poolCapacityC06 {
 		tr.tags["deep"] = true
 	}
+	return m.ids
 }
 
 const poolCapacityC06 = 32
@@ -372,8 +429,14 @@ func c06Exec(op string) Result {
 		return Result{Out: "ok"}
 	case strings.HasPrefix(op, "prog "):
 		name, decls := c06ParseProg(op)
-		tr := c06Run(decls)
+		tr := c06Run(decls, true)
 		c06cur, c06pos = tr, 0
+		// second run without poisoning: poison overwrites the stale content of recycled frames,
+		// which is exactly what some defects (in-place reuse of a stale variable cell) need
+		var plain *c06Trace
+		if tr.hook {
+			plain = c06Run(decls, false)
+		}
 		res := Result{Out: "prog", Nontrivial: true, Tags: []string{"prog", "t:" + name}}
 		for t := range tr.tags {
 			res.Tags = append(res.Tags, t)
@@ -400,6 +463,16 @@ func c06Exec(op string) Result {
 			}
 			res.Viol = fmt.Sprintf("program %s: gomacro (%s) returns %q, compiled Go returns %q", name, mode, truncate(tr.result, 200), truncate(want, 200))
 			res.Key = "C06-result-" + name
+		} else if plain != nil && plain.result != want {
+			res.Viol = fmt.Sprintf("program %s: gomacro (frames not poisoned) returns %q, compiled Go returns %q", name, truncate(plain.result, 200), truncate(want, 200))
+			res.Key = "C06-result-" + name
+		} else if tr.audit != "" || (plain != nil && plain.audit != "") {
+			a := tr.audit
+			if a == "" {
+				a = plain.audit
+			}
+			res.Viol = fmt.Sprintf("program %s: %s (a variable whose address was taken can be overwritten when the frame is recycled)", name, a)
+			res.Key = "C06-ptr-owner-" + name
 		} else if tr.leak {
 			res.Viol = fmt.Sprintf("program %s: a function returned normally but its frame was never released (freeEnv4Func not called): the monitor needs a panic-style unwind in a program without panic", name)
 			res.Key = "C06-frame-not-released-" + name
@@ -424,7 +497,7 @@ func c06Exec(op string) Result {
 // c06Emit runs the program and emits reset + prog + its monitor ops; with maxOps > 0 a
 // program with more monitor ops is dropped (nothing emitted, false returned)
 func c06Emit(emit func(string), name string, decls []string, maxOps int) bool {
-	tr := c06Run(decls)
+	tr := c06Run(decls, true)
 	if maxOps > 0 && len(tr.ops) > maxOps {
 		return false
 	}
